@@ -166,6 +166,10 @@ def call_guarded(fn, wall_s=2.0, step_budget=3_000_000):
                 raise StepBudgetExceeded()
         return tracer
 
+    # backstop: when the traced code exhausts the recursion limit, calling the trace function itself raises
+    # RecursionError, which makes CPython drop the tracer silently; a generous alarm ends such a run
+    old = signal.signal(signal.SIGALRM, _alarm)
+    signal.setitimer(signal.ITIMER_REAL, max(20.0, wall_s * 10))
     sys.settrace(tracer)
     try:
         try:
@@ -173,10 +177,14 @@ def call_guarded(fn, wall_s=2.0, step_budget=3_000_000):
             return ("ok", v)
         except StepBudgetExceeded:
             return ("nonterm", count[0])
+        except WallTimeout:
+            return ("nonterm", -count[0])      # negative: ended by the wall-clock backstop after the tracer was dropped
         except Exception as e:
             return ("exc", e)
     finally:
         sys.settrace(None)
+        signal.setitimer(signal.ITIMER_REAL, 0)
+        signal.signal(signal.SIGALRM, old)
 
 
 # ----------------------------------------------------------------------------------------------
